@@ -1,4 +1,5 @@
 """C01 — TTLV codec round trip for every encodable value and KMIP version."""
+import copy
 import json
 import os
 import random
@@ -188,6 +189,13 @@ def struct_phase(ctx, cov):
     cov["struct_classes_encoded"] = len(covered)
     cov["struct_classes_uncovered"] = [k.replace("kmip.core.", "") for k in sorted(classes) if k not in covered]
     cov["struct_instances"] = run.evaluations
+    cov["nested_pairs_fully_populated"] = len(getattr(run, "nested_pairs_full", []))
+    cov["nested_pairs_partially_populated"] = len(getattr(run, "nested_pairs_partial", []))
+    cov["nested_pairs"] = ["%s<-%s" % p for p in getattr(run, "nested_pairs_full", [])]
+    cov["nested_pairs_partial"] = ["%s<-%s" % p for p in getattr(run, "nested_pairs_partial", [])]
+    cov["fields_excluded_from_never_roundtrips"] = getattr(run, "excluded_fields", {})
+    cov["fields_unprobed"] = {k.replace("kmip.core.", ""): v["fields_unprobed"] for k, v in sorted(run.per_class.items())
+                              if v.get("fields_unprobed")}
     cov["falsy_combinations"] = getattr(run, "falsy_combinations", 0)
     cov["falsy_per_class"] = getattr(run, "falsy_per_class", {})
     cov["struct_stats"] = dict(sorted(run.stats.items()))
@@ -380,6 +388,28 @@ def replay(ctx, rep):
             return ok
         print("re-run the check with seed %s to regenerate this traffic" % r.get("seed"))
         return True
+    if r.get("kind") == "never":
+        lib = IC.Library()
+        cls = lib.classes[r["class"]][0]
+        base = {k: CC.undescribe_value(d) for k, d in r.get("base", {}).items()}
+        x = cls(**dict(base, **{r["field"]: CC.undescribe_value(r["value"])}))
+        res = [CC.field_survives(x, r["field"], v, [], cls.__name__) for v in IC.VERSIONS]
+        print("field survives per version: %s" % res)
+        return any(q is True for q in res) or not any(q is False for q in res)
+    if r.get("kind") == "nested":
+        lib = IC.Library()
+        cls = lib.classes[r["class"]][0]
+        base = {k: CC.undescribe_value(d) for k, d in r.get("base", {}).items()}
+        n = CC.undescribe_value(r["nested"])
+        x = cls(**dict(base, **{r["field"]: [n] if r.get("list") else n}))
+        v = IC.vof(r["version"])
+        y, left = IC.dec(IC.factory_for(x), IC.enc(copy.deepcopy(x), v), v)
+        got, orig = getattr(y, r["field"]), getattr(x, r["field"])
+        d_in = IC.diff(orig[0], got[0]) if r.get("list") else IC.diff(orig, got)
+        n2, _ = IC.dec(IC.factory_for(n), IC.enc(copy.deepcopy(n), v), v)
+        extra = sorted(set(d_in) - set(IC.diff(n, n2)))
+        print("lost inside the container only: %s" % extra)
+        return not extra
     if r.get("kind") == "falsy":
         lib = IC.Library()
         cls = lib.classes[r["class"]][0]
